@@ -26,45 +26,45 @@ def decodeL (ro : ROpts) : List RT → List NT
   | c :: cs => decode ro c :: decodeL ro cs
 end
 
-/-- pairwise distinct up to (ASCII) letter case -/
-def DistinctCI : List Str → Prop
+/-- pairwise distinct up to the case folding `cf` -/
+def DistinctCI (cf : Char → Char) : List Str → Prop
   | [] => True
-  | a :: r => (∀ b ∈ r, lower a ≠ lower b) ∧ DistinctCI r
+  | a :: r => (∀ b ∈ r, lowerWith cf a ≠ lowerWith cf b) ∧ DistinctCI cf r
 
 namespace Aux
 
-theorem distinct_append_left : ∀ (a b : List Str), DistinctCI (a ++ b) → DistinctCI a
+theorem distinct_append_left (cf : Char → Char) : ∀ (a b : List Str), DistinctCI cf (a ++ b) → DistinctCI cf a
   | [], _, _ => trivial
-  | x :: a, b, h => ⟨fun y hy => h.1 y (by simp [hy]), distinct_append_left a b h.2⟩
+  | x :: a, b, h => ⟨fun y hy => h.1 y (by simp [hy]), distinct_append_left cf a b h.2⟩
 
-theorem distinct_snoc_fresh : ∀ (a : List Str) (w : Str) (rest : List Str), DistinctCI (a ++ w :: rest) → ∀ x ∈ a, lower x ≠ lower w
+theorem distinct_snoc_fresh (cf : Char → Char) : ∀ (a : List Str) (w : Str) (rest : List Str), DistinctCI cf (a ++ w :: rest) → ∀ x ∈ a, lowerWith cf x ≠ lowerWith cf w
   | [], _, _, _, x, hx => by simp at hx
   | y :: a, w, rest, h, x, hx => by
     simp at hx
     rcases hx with rfl | hx
     · exact h.1 w (by simp)
-    · exact distinct_snoc_fresh a w rest h.2 x hx
+    · exact distinct_snoc_fresh cf a w rest h.2 x hx
 
-theorem find_none (ns : List Str) (w : Str) (h : ∀ x ∈ ns, lower x ≠ lower w) :
-    ns.find? (fun l => lower l == lower w) = none := by
+theorem find_none (cf : Char → Char) (ns : List Str) (w : Str) (h : ∀ x ∈ ns, lowerWith cf x ≠ lowerWith cf w) :
+    ns.find? (fun l => lowerWith cf l == lowerWith cf w) = none := by
   rw [List.find?_eq_none]
   intro x hx
   simpa using h x hx
 
-theorem lookup_fresh (m : Mapper) (w : Str) (ht : m.tokmap = []) (hn : m.numbers = false)
-    (h : ∀ x ∈ m.ns, lower x ≠ lower w) : lookup m w = ({ m with ns := m.ns ++ [w] }, w) := by
+theorem lookup_fresh (cf : Char → Char) (m : Mapper) (w : Str) (ht : m.tokmap = []) (hn : m.numbers = false)
+    (h : ∀ x ∈ m.ns, lowerWith cf x ≠ lowerWith cf w) : lookup cf m w = ({ m with ns := m.ns ++ [w] }, w) := by
   unfold lookup
-  rw [ht, find_none m.ns w h, hn]
+  rw [ht, find_none cf m.ns w h, hn]
   simp
 
 mutual
 theorem assign_fresh (ro : ROpts) : ∀ (r : RT) (m : Mapper) (seen : List Str),
-    m.tokmap = [] → m.numbers = false → (∀ x ∈ seen, x ∈ m.ns) → DistinctCI (m.ns ++ taxaOf ro r) →
+    m.tokmap = [] → m.numbers = false → (∀ x ∈ seen, x ∈ m.ns) → DistinctCI ro.cf (m.ns ++ taxaOf ro r) →
     assign ro r ⟨m, seen⟩ = some (decode ro r, ⟨{ m with ns := m.ns ++ taxaOf ro r }, (taxaOf ro r).reverse ++ seen⟩)
   | .node l e cs, m, seen, ht, hn, hs, hd => by
-    have hd' : DistinctCI (m.ns ++ taxaOfL ro cs) := by
+    have hd' : DistinctCI ro.cf (m.ns ++ taxaOfL ro cs) := by
       simp only [taxaOf, ← List.append_assoc] at hd
-      exact distinct_append_left _ _ hd
+      exact distinct_append_left ro.cf _ _ hd
     have hL := assignL_fresh ro cs m seen ht hn hs hd'
     rw [assign, hL]
     cases l with
@@ -76,10 +76,10 @@ theorem assign_fresh (ro : ROpts) : ∀ (r : RT) (m : Mapper) (seen : List Str),
       | true => simp
       | false =>
         simp only [Bool.false_eq_true, if_false] at hd ⊢
-        have hfresh : ∀ x ∈ m.ns ++ taxaOfL ro cs, lower x ≠ lower w := by
+        have hfresh : ∀ x ∈ m.ns ++ taxaOfL ro cs, lowerWith ro.cf x ≠ lowerWith ro.cf w := by
           rw [← List.append_assoc] at hd
-          exact distinct_snoc_fresh _ w [] hd
-        have hlk := lookup_fresh { m with ns := m.ns ++ taxaOfL ro cs } w ht hn hfresh
+          exact distinct_snoc_fresh ro.cf _ w [] hd
+        have hlk := lookup_fresh ro.cf { m with ns := m.ns ++ taxaOfL ro cs } w ht hn hfresh
         have hnotseen : ((taxaOfL ro cs).reverse ++ seen).contains w = false := by
           cases hh : ((taxaOfL ro cs).reverse ++ seen).contains w with
           | false => rfl
@@ -95,13 +95,13 @@ theorem assign_fresh (ro : ROpts) : ∀ (r : RT) (m : Mapper) (seen : List Str),
         simp only [hlk, hnotseen]
         simp
 theorem assignL_fresh (ro : ROpts) : ∀ (cs : List RT) (m : Mapper) (seen : List Str),
-    m.tokmap = [] → m.numbers = false → (∀ x ∈ seen, x ∈ m.ns) → DistinctCI (m.ns ++ taxaOfL ro cs) →
+    m.tokmap = [] → m.numbers = false → (∀ x ∈ seen, x ∈ m.ns) → DistinctCI ro.cf (m.ns ++ taxaOfL ro cs) →
     assignL ro cs ⟨m, seen⟩ = some (decodeL ro cs, ⟨{ m with ns := m.ns ++ taxaOfL ro cs }, (taxaOfL ro cs).reverse ++ seen⟩)
   | [], m, seen, _, _, _, _ => by simp [assignL, decodeL, taxaOfL]
   | c :: cs, m, seen, ht, hn, hs, hd => by
-    have hd1 : DistinctCI (m.ns ++ taxaOf ro c) := by
+    have hd1 : DistinctCI ro.cf (m.ns ++ taxaOf ro c) := by
       simp only [taxaOfL, ← List.append_assoc] at hd
-      exact distinct_append_left _ _ hd
+      exact distinct_append_left ro.cf _ _ hd
     have h1 := assign_fresh ro c m seen ht hn hs hd1
     have hs2 : ∀ x ∈ (taxaOf ro c).reverse ++ seen, x ∈ ({ m with ns := m.ns ++ taxaOf ro c } : Mapper).ns := by
       intro x hx
@@ -109,7 +109,7 @@ theorem assignL_fresh (ro : ROpts) : ∀ (cs : List RT) (m : Mapper) (seen : Lis
       rcases hx with hx | hx
       · exact Or.inr hx
       · exact Or.inl (hs x hx)
-    have hd2 : DistinctCI (({ m with ns := m.ns ++ taxaOf ro c } : Mapper).ns ++ taxaOfL ro cs) := by
+    have hd2 : DistinctCI ro.cf (({ m with ns := m.ns ++ taxaOf ro c } : Mapper).ns ++ taxaOfL ro cs) := by
       simpa [taxaOfL, List.append_assoc] using hd
     have h2 := assignL_fresh ro cs { m with ns := m.ns ++ taxaOf ro c } ((taxaOf ro c).reverse ++ seen) ht hn hs2 hd2
     rw [assignL, h1]
